@@ -125,6 +125,7 @@ def check_read(case, ctx):
     ctx.label("bpms-out-of-order", stl["bpm_perm"] != sorted(stl["bpm_perm"]))
     ctx.label("stops=" + ("absent" if not parsed["has_stops_tag"] else stl["stops"]))
     ctx.label("charts=%d" % len(charts))
+    ctx.label("chart-without-objects", any(not c["notes"] for c in sk["charts"]))
     ctx.label("non-4-key", non4)
     ctx.label("keys>=10", any((c["keys"] or 0) >= 10 for c in charts))
     ctx.label("keys=18", any(c["keys"] == 18 for c in charts))
